@@ -15,7 +15,7 @@ import (
 	"strconv"
 	"strings"
 
-	_ "verif/checks"
+	"verif/checks"
 	"verif/internal/core"
 )
 
@@ -34,6 +34,16 @@ func main() {
 		os.Exit(3)
 	}
 	switch os.Args[1] {
+	case "mkcorpus":
+		dir := core.Root + "/corpus"
+		if len(os.Args) > 2 {
+			dir = os.Args[2]
+		}
+		if err := checks.MakeCorpus(dir); err != nil {
+			fmt.Fprintln(os.Stderr, err)
+			os.Exit(1)
+		}
+		fmt.Println("corpus written to", dir)
 	case "list":
 		for _, id := range core.IDs() {
 			fmt.Println(id)
